@@ -774,6 +774,14 @@ func genC09(c *Ctx) {
 			}
 			ops = append(ops, "e")
 			c.add("compact", hx(ns), "0", strings.Join(ops, ","))
+			if i%16 == 0 {
+				// the same history with the other share versions the constructor takes: 1, 2, 127 (compact shares
+				// never carry a signer), and 128 / 255, for which the constructor panics
+				for _, ver := range []string{"1", "2", "127", "128", "255"} {
+					c.add("compact", hx(ns), ver, strings.Join(ops, ","))
+				}
+				c.count("compact_other_share_versions")
+			}
 		}
 		// oracle
 		css := share.NewCompactShareSplitter(nsOf(ns), 0)
